@@ -502,6 +502,10 @@ class UnitDatabase(Singleton):
                     "unit %r is not valid for default quantity type %r"
                     % (default_unit, quantity_type)
                 )
+            if valid_units and default_unit not in valid_units:
+                raise ValueError(
+                    "default unit %r is not among the valid units %r" % (default_unit, valid_units)
+                )
 
         # caption
         if not caption:
